@@ -83,33 +83,53 @@ def genErrTok : GenErr → String
   | .notFull => "notfull"
   | .indexPanic => "panic"
 
-/-- one generator session: ops `a<index>:<bits>` / `q<idx>`. -/
-def runGen (size : Nat) (ops : List String) : String :=
+/-- Spec of a bit vector: column `i` of the blooms added so far, MSB-first, `size/8` bytes (what `transpose_spec` states). -/
+def specColumn (blooms : Array Bytes) (size i : Nat) : Bytes :=
+  (List.range (size / 8)).map (fun k =>
+    (List.range 8).foldl (fun (acc : UInt8) j =>
+      let n := 8 * k + j
+      if n < blooms.size && (beNat blooms[n]!).testBit i then acc ||| ((1 : UInt8) <<< (7 - j).toUInt8) else acc) 0)
+
+/-- one generator session: ops `a<index>:<bits>` / `q<idx>`. Returns the model outputs and, per op, the output the Spec also
+    accepts (a generator that hands out the correct column where the code as written refuses is a harmless difference). -/
+def runGen (size : Nat) (ops : List String) : List String × List String :=
   match newGenerator size with
-  | .error e => genErrTok e
+  | .error e => ([genErrTok e], [genErrTok e])
   | .ok g0 =>
-    let (_, outs) := ops.foldl (fun (acc : Generator × List String) op =>
-      let (g, outs) := acc
+    let (_, _, outs, alts) := ops.foldl (fun (acc : Generator × Array Bytes × List String × List String) op =>
+      let (g, added, outs, alts) := acc
       match op.toList with
       | 'a' :: r =>
         match (String.ofList r).splitOn ":" with
         | [i, bits] =>
           match i.toNat?, parseBits bits with
           | some idx, some bs =>
-            match g.addBloom idx (bloomOfBits bs) with
-            | .ok g' => (g', "ok" :: outs)
-            | .error e => (g, genErrTok e :: outs)
-          | _, _ => (g, "bad-op" :: outs)
-        | _ => (g, "bad-op" :: outs)
+            let bl := bloomOfBits bs
+            match g.addBloom idx bl with
+            | .ok g' => (g', added.push bl, "ok" :: outs, "ok" :: alts)
+            | .error e => (g, added, genErrTok e :: outs, genErrTok e :: alts)
+          | _, _ => (g, added, "bad-op" :: outs, "bad-op" :: alts)
+        | _ => (g, added, "bad-op" :: outs, "bad-op" :: alts)
       | 'q' :: r =>
         match (String.ofList r).toNat? with
         | some idx =>
+          -- Spec: a bit index outside the bloom may be refused with an error; inside, a filled generator may hand out the column
+          let alt := if idx ≥ 2048 then "oob"
+            else if added.size == size then "ok:" ++ hexOrDash (specColumn added size idx) else ""
           match g.bitset idx with
-          | .ok v => (g, ("ok:" ++ hexOrDash v) :: outs)
-          | .error e => (g, genErrTok e :: outs)
-        | none => (g, "bad-op" :: outs)
-      | _ => (g, "bad-op" :: outs)) (g0, [])
-    ";".intercalate outs.reverse
+          | .ok v => (g, added, ("ok:" ++ hexOrDash v) :: outs, alt :: alts)
+          | .error e => (g, added, genErrTok e :: outs, alt :: alts)
+        | none => (g, added, "bad-op" :: outs, "bad-op" :: alts)
+      | _ => (g, added, "bad-op" :: outs, "bad-op" :: alts)) (g0, #[], [], [])
+    (outs.reverse, alts.reverse)
+
+def genVerdict (size : Nat) (ops : List String) (go : String) : String :=
+  let (outs, alts) := runGen size ops
+  let m := ";".intercalate outs
+  let gos := go.splitOn ";"
+  let ok := gos.length == outs.length &&
+    ((gos.zip (outs.zip alts)).all (fun (g, o, a) => g == o || (a != "" && g == a)))
+  verdict m go ok "generator-differs-from-transposition-spec"
 
 /-- blooms `n:bits;n:bits…` placed into a list of `total` blooms (others empty). -/
 def placeBlooms (total : Nat) (s : String) : Option (List Bytes) :=
@@ -167,6 +187,13 @@ def step (st : St) (l : String) : St × String :=
     match bytesOfHex bl, parseItem st it with
     | some bloom, some b => (st, verdict (toString (bloomLookup (mkH st.poolH) bloom b)) go false "BloomLookup-differs")
     | _, _ => bad
+  | ["tb", bl, it] =>
+    match bytesOfHex bl, parseItem st it with
+    | some bloom, some b =>
+      -- Impl: hashes big.Int.Bytes(); Spec: the lookup on the full bytes (a corrected TestBytes is accepted as spec-ok)
+      let H := mkH (memo st.poolH [b, beBytes (beNat b)])
+      (st, verdict (toString (bloomTestBytes H bloom b)) go (go == toString (bloomLookup H bloom b)) "TestBytes-differs")
+    | _, _ => bad
   | ["bf", bl, a, t] =>
     match bytesOfHex bl, parseCrit st a t with
     | some bloom, some c =>
@@ -187,7 +214,7 @@ def step (st : St) (l : String) : St × String :=
       let ops := match rest with
         | [o] => if o == "-" then [] else o.splitOn ";"
         | _ => []
-      (st, verdict (runGen size ops) go false "generator-differs")
+      (st, genVerdict size ops go)
     | none => bad
   | "mset" :: sz :: ns :: rest =>
     match sz.toNat?, ns.toNat? with
@@ -225,8 +252,10 @@ def step (st : St) (l : String) : St × String :=
           if e.1 < a.size then a.set! e.1 ⟨createBloom H e.2, e.2⟩ else a) (Array.replicate nblocks emptyBlk)
         let chain := arr.toList
         match buildIndex size (chain.map (·.bloom)) nsec with
-        | .ok idx => ({ st with csize := size, cindex := idx, chain := chain }, verdict "ok" go false "index")
-        | .error _ => ({ st with csize := size, cindex := [], chain := chain }, verdict "generr" go false "index")
+        -- whether the indexer could commit is not a clause of the property: either status is accepted by the Spec; the
+        -- queries that follow are judged against brute force whatever the progress
+        | .ok idx => ({ st with csize := size, cindex := idx, chain := chain }, verdict "ok" go (go == "generr") "index")
+        | .error _ => ({ st with csize := size, cindex := [], chain := chain }, verdict "generr" go (go == "ok") "index")
     | _, _, _ => bad
   | ["q", b, e, a, t] =>
     match parseInt b, parseInt e, parseCrit st a t with
